@@ -769,7 +769,6 @@ func freeVarRoot(v ssa.Value) *ssa.FreeVar {
 	}
 }
 
-
 // isCoinZeroTest: cond is coin.IsZero() / coin.Amount.IsZero() (one spelling after librarySynonym) of the given coin.
 func isCoinZeroTest(cond *Term, coin *Term) bool {
 	if !cond.IsCall("math.Int.IsZero") || len(cond.Args) == 0 {
